@@ -753,6 +753,9 @@ class Name:
                         out += label.lower()
                     else:
                         out += label
+                if len(out) > 255:
+                    # The derelativized name does not fit in a DNS name.
+                    raise NameTooLong
             return bytes(out)
 
         labels: Iterable[bytes]
